@@ -200,6 +200,12 @@ impl Net {
         (tokio::time::Instant::now() - inner.t0).as_micros() as Micros
     }
 
+    /// Virtual time of a tokio instant on this network's clock.
+    pub fn micros_at(&self, at: tokio::time::Instant) -> Micros {
+        let inner = self.0.lock().unwrap();
+        at.saturating_duration_since(inner.t0).as_micros() as Micros
+    }
+
     pub fn set_fault(&self, fault: FaultFn) {
         self.0.lock().unwrap().fault = fault;
     }
